@@ -66,15 +66,17 @@ const SYMS: &[&str] = &["a", "b", ".", "..", ""];
 fn pair_count() -> u64 {
     // rel paths of 1..=4 segments over 5 symbols, x leading slash x suffix x bases
     let rels: u64 = 5 + 25 + 125 + 625;
-    rels * 2 * 2 * BASES.len() as u64
+    rels * 2 * 4 * BASES.len() as u64
 }
 
-fn pair_of(idx: u64) -> (String, String, bool) {
+/// suffix mode: 0 none, 1 the reference's own suffix, 2 the other kind's suffix (must be kept),
+/// 3 the own suffix twice (one is stripped)
+fn pair_of(idx: u64) -> (String, String, u8) {
     let mut i = idx;
     let base = BASES[(i % BASES.len() as u64) as usize];
     i /= BASES.len() as u64;
-    let suffix = i % 2 == 1;
-    i /= 2;
+    let suffix = (i % 4) as u8;
+    i /= 4;
     let slash = i % 2 == 1;
     i /= 2;
     // i in 0..780 -> segment string
@@ -107,10 +109,14 @@ pub struct PairOut {
     pub replay: Option<Value>,
 }
 
-pub fn run_pair(base: &str, rel: &str, suffix: bool) -> PairOut {
+pub fn run_pair(base: &str, rel: &str, suffix: u8) -> PairOut {
     let mut stats = Stats::default();
-    let tsrc = if suffix { format!("{}.wxml", rel) } else { rel.to_string() };
-    let ssrc = if suffix { format!("{}.wxs", rel) } else { rel.to_string() };
+    let (tsrc, ssrc) = match suffix {
+        1 => (format!("{}.wxml", rel), format!("{}.wxs", rel)),
+        2 => (format!("{}.wxs", rel), format!("{}.wxml", rel)),
+        3 => (format!("{}.wxml.wxml", rel), format!("{}.wxs.wxs", rel)),
+        _ => (rel.to_string(), rel.to_string()),
+    };
     if rel.is_empty() || tsrc.contains('"') {
         stats.add("discard.degenerate_pair", 1);
         return PairOut { outcome: Outcome::Discard("degenerate".into()), stats, replay: None };
@@ -509,7 +515,7 @@ fn link_execs(seed: u64, g: &GroupWorld, m: usize) -> Vec<GExec> {
 
 // ---------------------------------------------------------------------------------------------
 
-const RULE: &str = "two workloads. pairs: run index -> (referrer path from 10 bases of depth 1-4, src of 1-4 segments over {a, b, ., .., empty}, leading '/', optional suffix): the whole space (31 200 pairs) is enumerated in the thorough tier, a seeded sample in the quick tier; direct_dependencies/script_dependencies must equal the reference resolver where the statement fixes the answer, and the emitted code must name exactly the reported paths everywhere (self-consistency, also for ambiguous spellings). links: generated groups of 2-6 files with colliding template names, imports/includes/wxs references in varied spellings (incl. missing targets), built under 4-8 seeded insertion schedules each (permutation, partition + import_group, duplicates, entropy stream), executed in the real runtime with every file as root: rendered marker sequence must equal the reference linker's. distinct = hash of (sources) or of the pair; non-trivial = a pair compared with the model / a link world with >= 2 files and >= 1 cross-file reference rendered.";
+const RULE: &str = "two workloads. pairs: run index -> (referrer path from 10 bases of depth 1-4, src of 1-4 segments over {a, b, ., .., empty}, leading '/', optional suffix): the whole space (62 400 pairs, four suffix modes: none, own, the other kind's, own twice) is enumerated in the thorough tier, a seeded sample in the quick tier; direct_dependencies/script_dependencies must equal the reference resolver where the statement fixes the answer, and the emitted code must name exactly the reported paths everywhere (self-consistency, also for ambiguous spellings). links: generated groups of 2-6 files with colliding template names, imports/includes/wxs references in varied spellings (incl. missing targets), built under 4-8 seeded insertion schedules each (permutation, partition + import_group, duplicates, entropy stream), executed in the real runtime with every file as root: rendered marker sequence must equal the reference linker's. distinct = hash of (sources) or of the pair; non-trivial = a pair compared with the model / a link world with >= 2 files and >= 1 cross-file reference rendered.";
 
 pub fn check(args: &Args) -> i32 {
     let t0 = Instant::now();
@@ -705,7 +711,7 @@ fn shrink_link(w: &LinkWorld, exec: Option<GExec>, class: &str) -> (LinkWorld, V
 
 pub fn replay(v: &Value, path: &str, quiet: bool) -> i32 {
     let out = match v["engine"].as_str().unwrap_or("") {
-        "pairs" => run_pair(v["base"].as_str().unwrap_or(""), v["rel"].as_str().unwrap_or(""), v["suffix"].as_bool().unwrap_or(false)).outcome,
+        "pairs" => run_pair(v["base"].as_str().unwrap_or(""), v["rel"].as_str().unwrap_or(""), v["suffix"].as_u64().unwrap_or(0) as u8).outcome,
         _ => {
             let execs: Vec<GExec> = v["execs"].as_array().map(|a| a.iter().map(group_sim::exec_from_json).collect()).unwrap_or_default();
             run_link_explicit(v, &execs).outcome
